@@ -236,7 +236,12 @@ fn c01_sig(case: &Case, sigil: &str, optname: &str, kind: &str, got: Option<&Out
                 }
             }
             let d = payload(&case.prog.body).or_else(|| case.prog.helpers.iter().find_map(|h| if let Helper::Fun { body, .. } = h { payload(body) } else { None }));
-            if matches!((got, d), (Some(Out::Val(v)), Some(d)) if rw(d) != *d && contains(v, &rw(d))) {
+            // the rewrites are applied to some or all of the elements (the passes stop at different depths in the
+            // main body and in a function body): the value must contain the payload modulo exactly these rewrites
+            fn contains_mod(t: &T, d: &T, nd: &T) -> bool {
+                (t != d && rw(t) == *nd) || matches!(t, T::P(a, b) if contains_mod(a, d, nd) || contains_mod(b, d, nd))
+            }
+            if matches!((got, d), (Some(Out::Val(v)), Some(d)) if rw(d) != *d && (contains(v, &rw(d)) || contains_mod(v, d, &rw(d)))) {
                 return "optimiser/(1)-inside-a-bare-quoted-body-becomes-nil".to_string();
             }
         }
@@ -408,7 +413,9 @@ pub fn c01(thorough: bool, replay: Option<String>) -> i32 {
     let ns = SIGILS.len() as u64;
 
     let n = sp.scope.len() as u64 * ns;
-    let (st, capped) = par_range(n, 16, cap, || (), |_, st, i| {
+    // diagnostic only (never set by a registered command): shorten the wall cap of the largest sub-space
+    let scope_cap = std::env::var("VERIF_DIAG_SCOPE_CAP_SECS").ok().and_then(|v| v.parse::<u64>().ok()).map(Duration::from_secs).or(cap);
+    let (st, capped) = par_range(n, 16, scope_cap, || (), |_, st, i| {
         let (chain, pol) = &sp.scope[(i / ns) as usize];
         let case = scope_case(chain, *pol, Some(SIGILS[(i % ns) as usize]));
         check_c01_case(st, &case, "SCOPE");
